@@ -318,14 +318,15 @@ theorem c05_ends_wf (c : Cfg) (p : Pipes)
 theorem c05_invalid_refused (c : Cfg) (rs : List SResp) (ha : c.argvEmpty = false)
     (hinv : c.sin = .merge ∨ (c.sout = .merge ∧ c.serr = .merge)) :
     hasFork (parentRun c rs).calls = false ∧ (acquireAll (stagesOf c) (s0 c) rs).fail ≠ none ∧
-    closedBy (parentRun c rs).calls = (acquireAll (stagesOf c) (s0 c) rs).s.owned := by
+    closedBy (parentRun c rs).calls =
+      (acquireAll (stagesOf c) (s0 c) rs).s.released ++ (acquireAll (stagesOf c) (s0 c) rs).s.owned := by
   obtain ⟨p1, -, -, -, -, -, -, -, -, -, -, hbad, -⟩ := prefork_facts c rs
   obtain ⟨hfail, hnf⟩ := hbad (Or.inr hinv)
   cases hf : (acquireAll (stagesOf c) (s0 c) rs).fail with
   | none => exact absurd hf hfail
   | some r =>
     obtain ⟨hc, -⟩ := parentRun_fail c rs ha r hf
-    refine ⟨by rw [hc, hasFork_append, hnf]; simp, by simp, by rw [hc, closedBy_append, p1, closedBy_closeAll]; rfl⟩
+    refine ⟨by rw [hc, hasFork_append, hnf]; simp, by simp, by rw [hc, closedBy_append, p1, closedBy_closeAll]⟩
 
 /-- **C05 (the parent's own standard streams are never touched).**  Up to the fork, every
     descriptor the parent closes or marks is one the attempt owns, and those are exactly
@@ -335,9 +336,11 @@ theorem c05_invalid_refused (c : Cfg) (rs : List SResp) (ha : c.argvEmpty = fals
 theorem c05_parent_std_untouched (c : Cfg) (rs : List SResp) :
     ∀ f ∈ touched (acquireAll (stagesOf c) (s0 c) rs).s.calls,
       f ∈ cfgFiles c ∨ f ∈ (acquireAll (stagesOf c) (s0 c) rs).s.got := by
-  obtain ⟨-, -, ht, -, -, -, -, -, -, -, -, -, hof⟩ := prefork_facts c rs
+  obtain ⟨-, -, ht, -, -, -, -, -, -, -, -, -, hof, hrel⟩ := prefork_facts c rs
   intro f hf
-  exact hof f (ht f hf)
+  rcases ht f hf with h | h
+  · exact hof f h
+  · exact Or.inr (hrel f h)
 
 /-! ### Non-vacuity (tests, labelled as tests) -/
 -- stdin = pipe (read end 5), stdout = pipe (write end 8), stderr = merge: 0 ← 5, 1 ← 8, 2 ← 8, and 5, 8 are closed
